@@ -72,7 +72,7 @@ func C10(c *core.Ctx) {
 					if s1, ok := m.Elem().Underlying().(*types.Slice); ok {
 						if s2, ok := s1.Elem().Underlying().(*types.Slice); ok {
 							if b, ok := s2.Elem().Underlying().(*types.Basic); ok && b.Kind() == types.Uint8 {
-								maps = append(maps, st.Field(i).Name())
+								maps = append(maps, core.CanonField(st, i))
 							}
 						}
 					}
